@@ -376,6 +376,10 @@ HASHABLE_LEAVES = {
 
 
 def make_unsupported(name):
+    if name.startswith("surrogate:"):  # a str that is not UTF-8 encodable: any lone surrogate, any position
+        _, cp, pos = name.split(":")
+        c = chr(int(cp, 16))
+        return {"0": c, "1": "ab" + c, "2": "a" + c + "\u20ac", "3": c + c}[pos]
     v = UNSUPPORTED[name]()
     try:
         v._verif_leaf = name
@@ -392,7 +396,10 @@ def unsupported_cases():
         st.sampled_from(["list", "tuple", "dictvalue", "dictkey", "set", "frozenset", "list_mid", "tuple_mid"]),
         max_size=4,
     )
-    return st.tuples(wrappers, st.sampled_from(sorted(UNSUPPORTED)), values(max_leaves=5))
+    surrogate = st.tuples(st.integers(0xD800, 0xDFFF), st.integers(0, 3)).map(lambda t: "surrogate:%04x:%d" % t)
+    leaf = st.one_of(st.sampled_from(sorted(UNSUPPORTED)), st.sampled_from(sorted(UNSUPPORTED)),
+                     st.sampled_from(sorted(UNSUPPORTED)), surrogate)
+    return st.tuples(wrappers, leaf, values(max_leaves=5))
 
 
 def build_unsupported(case):
@@ -400,7 +407,7 @@ def build_unsupported(case):
     replaced by 'list' when the current value is unhashable"""
     wrappers, leafname, filler = case
     v = make_unsupported(leafname)
-    hashable = leafname in HASHABLE_LEAVES
+    hashable = leafname in HASHABLE_LEAVES or leafname.startswith("surrogate:")
     for w in wrappers:
         if w in ("dictkey", "set", "frozenset") and not hashable:
             w = "list"
